@@ -391,6 +391,9 @@ def _run_press(scn, res, wd):
         out, st, snap = tapeload.load(tape, start, cfg, os.path.join(wd, 'press.szx'), scn['extra_args'])
     except tapeload.ToolError as e:
         return fail(res, 'C08/press/tool-error', str(e))
+    except tapeload.Hang:
+        res['discard'] = 'HANG: simulated LOAD on the C engine did not return and was killed'
+        return res
     text = tapeload.stripped(out)
     if 'PC at start address' not in text or 'Resuming LOAD' not in text:
         res['discard'] = 'press scenario did not pause / reach its start address'
